@@ -328,7 +328,7 @@ func (g *gen) inject(pos token.Pos, name string, sig *types.Signature, set *Prov
 			return notePosition(g.pkg.Fset.Position(pos), fmt.Errorf("inject %s: %v", name, e))
 		})
 	}
-	if errs := checkInjectorCalls(g.pkg.Fset, g.pkg.PkgPath, pos, name, injectSig, calls); len(errs) > 0 {
+	if errs := checkInjectorCalls(g.pkg.Fset, g.pkg.Types, pos, name, injectSig, calls); len(errs) > 0 {
 		return errs
 	}
 	type pendingVar struct {
@@ -383,7 +383,8 @@ func (g *gen) inject(pos token.Pos, name string, sig *types.Signature, set *Prov
 // cannot return, and providers, struct fields or value expressions the
 // injector's package cannot refer to. It is shared by Generate and Load so that
 // "wire check" reports what "wire gen" would.
-func checkInjectorCalls(fset *token.FileSet, pkgPath string, pos token.Pos, name string, injectSig outputSignature, calls []call) []error {
+func checkInjectorCalls(fset *token.FileSet, pkg *types.Package, pos token.Pos, name string, injectSig outputSignature, calls []call) []error {
+	pkgPath := pkg.Path()
 	ec := new(errorCollector)
 	for i := range calls {
 		c := &calls[i]
@@ -422,7 +423,7 @@ func checkInjectorCalls(fset *token.FileSet, pkgPath string, pos token.Pos, name
 			}
 		}
 		if c.kind == valueExpr {
-			if err := accessibleFrom(c.valueTypeInfo, c.valueExpr, pkgPath); err != nil {
+			if err := accessibleFrom(c.valueTypeInfo, c.valueExpr, pkg); err != nil {
 				// TODO(light): Display line number of value expression.
 				ts := types.TypeString(c.out, nil)
 				ec.add(notePosition(
@@ -1015,9 +1016,10 @@ func disambiguate(name string, collides func(string) bool) string {
 	}
 }
 
-// accessibleFrom reports whether node can be copied to wantPkg without
-// violating Go visibility rules.
-func accessibleFrom(info *types.Info, node ast.Node, wantPkg string) error {
+// accessibleFrom reports whether node can be copied to package dst without
+// violating Go visibility rules or changing what its identifiers refer to.
+func accessibleFrom(info *types.Info, node ast.Node, dst *types.Package) error {
+	wantPkg := dst.Path()
 	var unexportError error
 	ast.Inspect(node, func(node ast.Node) bool {
 		if unexportError != nil {
@@ -1036,6 +1038,15 @@ func accessibleFrom(info *types.Info, node ast.Node, wantPkg string) error {
 				return false
 			}
 			return true
+		}
+		if obj == nil {
+			return true
+		}
+		if obj.Parent() == types.Universe && dst.Scope().Lookup(ident.Name) != nil {
+			// A predeclared identifier that the destination package declares
+			// itself would refer to that declaration after copying.
+			unexportError = fmt.Errorf("uses predeclared identifier %s, which package %s redeclares", ident.Name, wantPkg)
+			return false
 		}
 		if pkg := obj.Pkg(); pkg != nil {
 			if !ast.IsExported(ident.Name) && pkg.Path() != wantPkg {
